@@ -5,6 +5,7 @@ import PqV.Drv.Fs
 import PqV.Drv.Access
 import PqV.Drv.RowFilter
 import PqV.Drv.Stats
+import PqV.Drv.Part
 /-
   `pqv` — line-protocol driver over the executable definitions of PqV (Spec, Impl, Gen).
   One request per line on stdin, one reply per line on stdout.  Pure per line.
@@ -26,6 +27,7 @@ def handleLine (line : String) : String :=
     | "access" => handleAccess op a
     | "rowfilter" => handleRowFilter op a
     | "stats" => handleStats op a
+    | "part" => handlePart op a
     | _ => s!"err unknown-stream {stream}"
   | _ => "err bad-request"
 
